@@ -14,8 +14,8 @@ Proof. destruct a, b; cbn; try discriminate; intros H; f_equal; try (apply Z.eqb
 Lemma inst_eqb_eq a b : inst_eqb a b = true -> a = b.
 Proof.
   destruct a, b. unfold inst_eqb. cbn. intros H. repeat (apply andb_prop in H; let H2 := fresh "H" in destruct H as [H H2]).
-  apply String.eqb_eq in H. apply (list_eqb_eq _ operand_eqx_eq) in H4. apply (list_eqb_eq N.eqb (fun x y => proj1 (N.eqb_eq x y))) in H3.
-  apply Bool.eqb_prop in H2. apply Bool.eqb_prop in H1. apply Z.eqb_eq in H0. subst. reflexivity.
+  apply String.eqb_eq in H. apply (list_eqb_eq _ operand_eqx_eq) in H5. apply (list_eqb_eq N.eqb (fun x y => proj1 (N.eqb_eq x y))) in H4.
+  apply Bool.eqb_prop in H3. apply Bool.eqb_prop in H2. apply Z.eqb_eq in H1. apply (list_eqb_eq _ ann_eqb_eq) in H0. subst. reflexivity.
 Qed.
 
 Lemma rev_head {A} (i : A) l : l <> [] -> exists t q, rev l = t :: q /\ rev (i :: l) = t :: (q ++ [i]).
@@ -41,6 +41,7 @@ Variable O : oracle.
 Variable C : certs.
 Variable f : func.
 Hypothesis Hext : oracle_ext O.
+Hypothesis Hro : ro_uniform O.
 Hypothesis Hok : certs_ok f C = true.
 
 Lemma block_lockstep : forall b b' F s s',
@@ -71,12 +72,16 @@ Proof.
       { apply orb_prop in Hj. destruct Hj as [Hj|Hj].
         - apply inst_eqb_eq in Hj. subst i'. pose proof (exec_ext O Hext i s s' R) as X.
           destruct (exec O i s), (exec O i s'); cbn in X; try contradiction; auto. eexists; eauto.
-        - destruct (exec O i s) as [s1| |] eqn:He; auto.
-          + eapply justified_sound; eauto.
-          + exfalso. unfold justified in Hj. destruct (String.eqb (i_op i) "mcopy") eqn:Q; try discriminate.
-            apply String.eqb_eq in Q. destruct i as [op args outs wm wrd id]. cbn in Q. subst op.
-            unfold exec in He. cbn [i_op i_args i_outs] in He. ceqb. destruct (ovals s args); try discriminate.
-            destruct l as [|[[?|] ?] [|? [|? [|? ?]]]]; destruct outs; discriminate. }
+        - destruct (String.eqb (i_op i) "mcopy") eqn:Qm.
+          + apply String.eqb_eq in Qm. destruct (exec O i s) as [s1| |] eqn:He; auto.
+            * eapply justified_sound_mcopy; eauto.
+            * exfalso. destruct i as [op args outs wm wrd id ann]. cbn in Qm. subst op. unfold justified in Hj. cbn [i_op i_args i_outs] in Hj. ceqb.
+              unfold exec in He. cbn [i_op i_args i_outs] in He. ceqb. destruct (ovals s args); try discriminate.
+              destruct l as [|[[?|] ?] [|? [|? [|? ?]]]]; destruct outs; discriminate.
+          + assert (Qi : i_op i = "invoke").
+            { unfold justified in Hj. rewrite Qm in Hj. destruct (String.eqb (i_op i) "invoke") eqn:Q; [apply String.eqb_eq; exact Q|discriminate]. }
+            pose proof (justified_sound_invoke O C F i i' s s' Hext Hro HI HF R Qi Hj) as X. unfold out_rel in X.
+            destruct (exec O i s); auto. }
       destruct (exec O i s) as [s1| |] eqn:He; try exact I.
       * destruct Hstep as [s1' [He' R1]]. rewrite He'.
         assert (B := IH (i2' :: r') (step_facts C F i) s1 s1').
@@ -118,8 +123,9 @@ Definition rel_res (r r' : result) : Prop :=
 
 Lemma fact_eqb_holds s a b : fact_eqb a b = true -> fholds O s b -> fholds O s a.
 Proof.
-  destruct a as [o1 d1 s1 n1], b as [o2 d2 s2 n2]. cbn. intros H. repeat (apply andb_prop in H; let H2 := fresh "H" in destruct H as [H H2]).
-  apply String.eqb_eq in H. apply Z.eqb_eq in H0. subst. rewrite (operand_eqb_oval s _ _ H2), (operand_eqb_oval s _ _ H1). auto.
+  destruct a as [o1 d1 s1 n1], b as [o2 d2 s2 n2]. cbn. intros H.
+  apply andb_prop in H. destruct H as [H H0]. apply andb_prop in H. destruct H as [H H1]. apply andb_prop in H. destruct H as [H H2].
+  apply String.eqb_eq in H. subst. rewrite (operand_eqb_oval s _ _ H2), (operand_eqb_oval s _ _ H1), (operand_eqb_oval s _ _ H0). auto.
 Qed.
 
 Lemma subset_holds s A B : subset A B = true -> allholds O s B -> allholds O s A.
@@ -159,10 +165,10 @@ End Sound.
 
 (* the statement *)
 Theorem copyfwd_check_sound O C E f f' :
-  oracle_ext O -> check_func C E f f' = true ->
+  oracle_ext O -> ro_uniform O -> check_func C E f f' = true ->
   forall s0 s0', cinv C s0 -> seq2 s0 s0' -> forall fuel, rel_res (run O f fuel 0 s0) (run O f' fuel 0 s0').
 Proof.
-  intros Hext H s0 s0' HI R fuel. unfold check_func in H. apply andb_prop in H. destruct H as [H Hcb]. apply andb_prop in H. destruct H as [Hok He].
+  intros Hext Hro H s0 s0' HI R fuel. unfold check_func in H. apply andb_prop in H. destruct H as [H Hcb]. apply andb_prop in H. destruct H as [Hok He].
   apply run_lockstep with (C := C) (E := E); auto.
   unfold entry_of. cbn. destruct E as [|[|? ?] ?]; try discriminate; intros fc [].
 Qed.
